@@ -274,4 +274,22 @@ PROPS = {
                         "IpAddr::from_str, u32 Display and [String]::join are uninterpreted functions of the text / value",
                         "derive(Clone) of GameServerStatus yields an equal value"],
     },
+    "C17": {
+        "units": ["U11", "U9"],
+        "level": "proof",
+        "witness": [(r".", "shutdown")],
+        "sweep": ["shutdown"],
+        "explanation": "The accept loop `Listener::listen` is extracted with the polling order of its `select!` kept (R8b): every arm's readiness at a poll is a ghost value of "
+                       "the model (`stop.cancelled()` is ready exactly when the token is cancelled, `listener.accept()` when a connection is pending), the arm that runs was ready "
+                       "and, with `biased;`, no arm before it in source order was (tokio's documented semantics). Proved for every sequence of polls: a connection is accepted "
+                       "only at a poll at which shutdown had not been requested; the loop is left only through the cancellation arm or an accept error; the tracker is "
+                       "closed before it is awaited and `listen` returns Ok only after `TaskTracker::wait` (closed and every tracked task finished). `Listener::handle` (U9) "
+                       "contains no cancellation: a connection in progress is bounded only by the connection timeout (C14) and its protocol logic is that of C01-C07.",
+        "not_covered": ["that every per-connection task is spawned on this tracker (R14 inlines `tracker.spawn(..)`; a plain tokio::spawn is outside the model: exit 2)",
+                        "the accept-error path (`accepted?`) returns without draining the tracker", "how the stop token is wired to ctrl-c in src/lib.rs (a detached task, R31)",
+                        "TaskTracker / CancellationToken / select! themselves (tokio, tokio-util): assumed as documented"],
+        "assumptions": ["tokio::select!: the arm that runs was ready at that poll; with `biased;` arms are polled in source order",
+                        "CancellationToken::cancelled() is ready iff the token is cancelled; TaskTracker::wait() returns once the tracker is closed and empty",
+                        "suspension points inside handle() erased (R1): what happens between two polls of the accept loop is atomic in the model"],
+    },
 }
